@@ -299,7 +299,7 @@ func (e *Engine) mergeValues(c *Term, a, b Value) (Value, bool) {
 		if !ok {
 			return nil, false
 		}
-		return StrV{Arr: Ite(c, x.Arr, y.Arr), Off: Ite(c, x.Off, y.Off), Len: Ite(c, x.Len, y.Len), Taint: x.Taint || y.Taint}, true
+		return StrV{Arr: Ite(c, x.Arr, y.Arr), Off: Ite(c, x.Off, y.Off), Len: Ite(c, x.Len, y.Len), Taint: x.Taint | y.Taint}, true
 	case SliceV:
 		y, ok := b.(SliceV)
 		if !ok {
